@@ -22,7 +22,7 @@ def bs(name, attrs=(), tag=None, name_utf8=True):
 def ev(kind, payload=None): return Ok(REnum('Event', kind, [payload if payload is not None else UNIT])) if kind != 'Eof' else Ok(REnum('Event', 'Eof', []))
 def ev_start(name, attrs=(), tag=None, name_utf8=True): return ev('Start', bs(name, attrs, tag, name_utf8))
 def ev_empty(name, attrs=(), tag=None, name_utf8=True): return ev('Empty', bs(name, attrs, tag, name_utf8))
-def ev_end(): return ev('End', RStruct('BytesEnd', {}))
+def ev_end(name='?', utf8=True): return ev('End', RStruct('BytesEnd', {'name': RBytes(name, utf8, 'end.name')}))
 def ev_text(t='t', utf8=True, tag=None): return ev('Text', RStruct('BytesText', {'content': RBytes(t, utf8, '%s.text' % (tag,))}))
 def ev_cdata(t='t', utf8=True, tag=None): return ev('CData', RStruct('BytesCData', {'content': RBytes(t, utf8, '%s.cdata' % (tag,))}))
 def ev_noise(kind): return ev(kind, RStruct('Bytes' + kind, {}))
@@ -58,6 +58,8 @@ BUILTIN_METHODS[('Reader', 'read_event')] = reader_next
 BUILTIN_METHODS[('Reader', 'buffer_position')] = lambda m, r: r.f['bufpos']
 BUILTIN_METHODS[('Reader', 'config_mut')] = lambda m, r: (_ for _ in ()).throw(Unsupported('reader configuration is outside the event model'))
 BUILTIN_METHODS[('BytesStart', 'name')] = lambda m, b: b.f['name']
+BUILTIN_METHODS[('BytesEnd', 'name')] = lambda m, b: b.f['name']
+BUILTIN_METHODS[('BytesEnd', 'local_name')] = lambda m, b: _local_name(m, b)
 def _local_name(m, b):
     """QName::local_name / BytesStart::local_name: everything after the first ':' (quick_xml splits at the first colon)"""
     nm = b.f['name'] if isinstance(b, RStruct) else b
@@ -91,6 +93,24 @@ def _with_checks(m, it, flag):
     return r
 BUILTIN_METHODS[('BytesStart', 'attributes')] = _attributes
 BUILTIN_METHODS[('RIter', 'with_checks')] = _with_checks
+def _unescape(m, b):
+    """BytesText::unescape: decode + replace the five predefined entities and character references; an unknown entity or invalid UTF-8 is an error"""
+    import re
+    c = b.f['content']
+    if not m.branch(c.utf8): return Err(RStruct('QxError', {'dbg': '~Encoding(Utf8Error)', 'disp': '~utf-8 error', 'tag': c.tag}))
+    v = m.cs(c)
+    out = []; i = 0
+    while i < len(v):
+        if v[i] == '&':
+            j = v.find(';', i)
+            ent = v[i + 1:j] if j > 0 else None
+            known = {'lt': '<', 'gt': '>', 'amp': '&', 'apos': "'", 'quot': '"'}
+            if ent in known: out.append(known[ent]); i = j + 1; continue
+            if ent and re.fullmatch(r'#[0-9]+|#x[0-9a-fA-F]+', ent): out.append(chr(int(ent[2:], 16) if ent[1] == 'x' else int(ent[1:]))); i = j + 1; continue
+            return Err(RStruct('QxError', {'dbg': '~Escape(UnrecognizedEntity)', 'disp': '~unrecognized entity', 'tag': c.tag}))
+        out.append(v[i]); i += 1
+    return Ok(RStr(''.join(out)))
+BUILTIN_METHODS[('BytesText', 'unescape')] = _unescape
 BUILTIN_METHODS[('BytesText', 'into_inner')] = lambda m, b: b.f['content']
 BUILTIN_METHODS[('BytesCData', 'into_inner')] = lambda m, b: b.f['content']
 BUILTIN_METHODS[('BytesText', 'as_ref')] = lambda m, b: b.f['content']
@@ -115,7 +135,9 @@ def script_from_native_events(evs):
                 else:
                     attrs.append(('err', a['err'])); break      # a malformed attribute ends the list for every iterator configuration
             out.append(Entry(ev_start(name, attrs, tag, nu) if k == 'Start' else ev_empty(name, attrs, tag, nu), pos=e['pos']))
-        elif k == 'End': out.append(Entry(ev_end(), pos=e['pos']))
+        elif k == 'End':
+            en, eu = dec(e['name']) if 'name' in e else ('?', True)
+            out.append(Entry(ev_end(en, eu), pos=e['pos']))
         elif k in ('Text', 'CData'):
             c, cu = dec(e['content'])
             out.append(Entry(ev_text(c, cu, tag) if k == 'Text' else ev_cdata(c, cu, tag), pos=e['pos']))
@@ -201,7 +223,7 @@ def to_script(node, cond=True, out=None, tagp='d'):
             if isinstance(it.kind, int): out.append(Entry(ev_noise(Noise.KINDS[it.kind]), cn))
             else:
                 for k, kn in enumerate(Noise.KINDS): out.append(Entry(ev_noise(kn), AND(cn, it.kind == k)))
-    out.append(Entry(ev_end(), c2))
+    out.append(Entry(ev_end(node.name), c2))
     return out
 
 class CondStart:
@@ -246,6 +268,7 @@ def mval(model, v, default=None):
     raise Unsupported('cannot concretise %s' % r)
 
 def xml_escape_text(s): return s.replace('&', '&amp;').replace('<', '&lt;').replace('>', '&gt;')
+# character data of the skeletons is RAW document text (what a Text event carries): it may contain entity references and is written out unescaped
 def serialise(model, items):
     """concrete XML text of a skeleton document under a model"""
     out = []
@@ -265,7 +288,7 @@ def serialise(model, items):
         elif isinstance(it, Text):
             if mval(model, it.present):
                 c = mval(model, it.content)
-                out.append('<![CDATA[' + c + ']]>' if mval(model, it.cdata) else xml_escape_text(c))
+                out.append('<![CDATA[' + c + ']]>' if mval(model, it.cdata) else c)
         elif isinstance(it, Noise):
             if mval(model, it.present):
                 k = Noise.KINDS[mval(model, it.kind)]
